@@ -130,9 +130,10 @@ CHECKS = {
 
 # additions of the later sessions (DESIGN.md §10.6); appended to the level text of each check.  The case counts quoted
 # in the texts above are those of the first build; the numbers measured by a run are in its evidence file.
-COMMON = (' Since session 3 every shard starts after a fixed set of hostile predecessor compilations / renderings (vlib/history.py), '
-          'and one template text in 4..8 reaches the engine through a module cache that has just stored a sibling configuration or a '
-          'sibling text (vlib/routes.py); both are counted in the evidence.')
+HISTORY = ' Every shard starts after a fixed set of hostile predecessor compilations / renderings (vlib/history.py; counted in the evidence).'
+ROUTES = (' One template text in 4..8 reaches the engine through a module cache that has just stored a sibling configuration or a '
+          'sibling text (vlib/routes.py; counted in the evidence).')
+USES_ROUTES = {'C01', 'C02', 'C03', 'C04', 'C05', 'C06', 'C07', 'C08', 'C09', 'C10', 'C12', 'C13', 'C18', 'C19', 'C20'}
 ADDENDA = {
  'C01': ' Added: escaped semicolons anywhere in define / attributes lists.',
  'C02': ' Added: the library\'s own translation function and the implicit-translation options as routes to the sinks; values with $$, ${name}; templates that come out of a loader after the same file was loaded as text.',
@@ -173,7 +174,7 @@ def main():
             'replay_cmd_template': './vcheck %s --replay {path}' % pid,
             'engine': engine,
             'technique': tech,
-            'level_claimed': {'category': cat, 'text': text + ADDENDA.get(pid, '') + (COMMON if pid not in ('C14', 'C15', 'C16', 'C17', 'C11', 'C19') else ''), 'design_ref': ref},
+            'level_claimed': {'category': cat, 'text': text + ADDENDA.get(pid, '') + HISTORY + (ROUTES if pid in USES_ROUTES else ''), 'design_ref': ref},
             'level_note': note,
         })
     not_app = []
